@@ -1052,8 +1052,8 @@ func (e *Enc) needStrOf() {
 	e.declFun("str_of", []string{"(Array Int Int)", sInt, sInt}, sStr)
 	if !e.declared["str_of_ax"] {
 		e.declared["str_of_ax"] = true
-		e.assert("(forall ((a (Array Int Int)) (o Int) (n Int)) (! (=> (>= n 0) (= (slen (str_of a o n)) n)) :pattern ((str_of a o n))))")
-		e.assert("(forall ((a (Array Int Int)) (o Int) (n Int) (k Int)) (! (=> (and (<= 0 k) (< k n)) (= (sat (str_of a o n) k) (select a (+ o k)))) :pattern ((sat (str_of a o n) k))))")
+		e.assertGlobal("(forall ((a (Array Int Int)) (o Int) (n Int)) (! (=> (>= n 0) (= (slen (str_of a o n)) n)) :pattern ((str_of a o n))))")
+		e.assertGlobal("(forall ((a (Array Int Int)) (o Int) (n Int) (k Int)) (! (=> (and (<= 0 k) (< k n)) (= (sat (str_of a o n) k) (select a (+ o k)))) :pattern ((sat (str_of a o n) k))))")
 	}
 }
 
@@ -1103,7 +1103,7 @@ func (f *Frame) specOpaqueDefined(sf *SpecFunc, n SCall, env *specEnv, rt types.
 		}
 		e.declFun("sp_"+sf.Name, sorts, rs)
 		app := fmt.Sprintf("(sp_%s %s)", sf.Name, strings.Join(args, " "))
-		e.assert(fmt.Sprintf("(forall (%s) (! (= %s %s) :pattern (%s)))", strings.Join(binders, " "), app, body.T, app))
+		e.assertGlobal(fmt.Sprintf("(forall (%s) (! (= %s %s) :pattern (%s)))", strings.Join(binders, " "), app, body.T, app))
 		// footprint lemma (a consequence of the definition by congruence): the value only depends on the heap
 		// locations the body reads
 		if len(reads) > 0 {
@@ -1134,7 +1134,7 @@ func (f *Frame) specOpaqueDefined(sf *SpecFunc, n SCall, env *specEnv, rt types.
 			}
 			appA := fmt.Sprintf("(sp_%s %s)", sf.Name, strings.Join(args2, " "))
 			appB := fmt.Sprintf("(sp_%s %s)", sf.Name, strings.Join(argsB, " "))
-			e.assert(fmt.Sprintf("(forall (%s) (! (=> %s (= %s %s)) :pattern (%s %s)))", strings.Join(b2, " "), and(conds...), appA, appB, appA, appB))
+			e.assertGlobal(fmt.Sprintf("(forall (%s) (! (=> %s (= %s %s)) :pattern (%s %s)))", strings.Join(b2, " "), and(conds...), appA, appB, appA, appB))
 		}
 	}
 	var args []string
